@@ -39,9 +39,10 @@ const (
 	OpProbe
 	OpUnlock
 	OpRUnlock
+	OpClose
 )
 
-var opNames = [...]string{"start", "spawn", "send", "recv", "lock", "rlock", "wait", "sleep", "call", "exit", "probe", "unlock", "runlock"}
+var opNames = [...]string{"start", "spawn", "send", "recv", "lock", "rlock", "wait", "sleep", "call", "exit", "probe", "unlock", "runlock", "close"}
 
 // Event is one entry of the execution log.
 type Event struct {
@@ -63,10 +64,12 @@ type thread struct {
 	done     bool
 	pending  int // pending operation kind (-1: running / none)
 	obj      *object
-	val      int    // value to send
-	sval     string // string value to send
+	val      int         // value to send
+	sval     string      // string value to send
+	aval     interface{} // value of any other type to send
 	recvInt  int
 	recvStr  string
+	recvAny  interface{}
 	partner  *thread // the other side of the last rendezvous / the sender whose buffered value was taken
 	sendSync byte    // race-detector addresses: what this thread released when sending / receiving
 	recvSync byte
@@ -79,8 +82,10 @@ type object struct {
 	id int
 	// channel
 	cap     int
+	closed  bool
 	ibuf    [16]int
 	sbuf    [16]string
+	abuf    [16]interface{}
 	senders [16]*thread
 	n       int
 	sync1   byte // addresses used for race annotations
@@ -176,7 +181,7 @@ func (s *sched) computeEnabled() int {
 			continue
 		}
 		switch t.pending {
-		case OpStart, OpSpawn, OpCall, OpProbe, OpSleep:
+		case OpStart, OpSpawn, OpCall, OpProbe, OpSleep, OpClose:
 			s.enabled[n] = Choice{i, -1}
 			n++
 			if t.pending != OpSleep || !t.yielded {
@@ -191,19 +196,26 @@ func (s *sched) computeEnabled() int {
 			// unbuffered: enabled through the receiver's rendezvous choice
 		case OpRecv:
 			if t.obj.cap > 0 {
-				if t.obj.n > 0 {
+				if t.obj.n > 0 || t.obj.closed {
 					s.enabled[n] = Choice{i, -1}
 					n++
 					anyNonYield = true
 				}
 			} else {
+				senders := 0
 				for j := 0; j < s.nthreads; j++ {
 					u := s.threads[j]
 					if u.alive && !u.done && u.pending == OpSend && u.obj == t.obj {
 						s.enabled[n] = Choice{i, j}
 						n++
+						senders++
 						anyNonYield = true
 					}
+				}
+				if senders == 0 && t.obj.closed { // a receive from a closed channel completes at once with the zero value
+					s.enabled[n] = Choice{i, -1}
+					n++
+					anyNonYield = true
 				}
 			}
 		case OpLock:
@@ -327,28 +339,37 @@ func (s *sched) decide() *thread {
 	switch t.pending {
 	case OpSend:
 		o := t.obj
-		o.ibuf[o.n], o.sbuf[o.n] = t.val, t.sval
+		o.ibuf[o.n], o.sbuf[o.n], o.abuf[o.n] = t.val, t.sval, t.aval
 		o.senders[o.n] = t
 		o.n++
 		s.log(Event{Thread: t.id, Op: OpSend, Obj: o.id, Arg: t.val, Name: t.sval})
+	case OpClose:
+		t.obj.closed = true
+		s.log(Event{Thread: t.id, Op: OpClose, Obj: t.obj.id})
 	case OpRecv:
 		o := t.obj
-		if o.cap > 0 {
-			t.recvInt, t.recvStr = o.ibuf[0], o.sbuf[0]
+		if (o.cap > 0 && o.n == 0) || (o.cap == 0 && c.S < 0) { // closed and drained
+			t.recvInt, t.recvStr, t.recvAny, t.partner = 0, "", nil, nil
+			s.log(Event{Thread: t.id, Op: OpRecv, Obj: o.id, Arg: 0, Name: "closed"})
+		} else if o.cap > 0 {
+			t.recvInt, t.recvStr, t.recvAny = o.ibuf[0], o.sbuf[0], o.abuf[0]
 			t.partner = o.senders[0]
 			copy(o.ibuf[:], o.ibuf[1:o.n])
 			copy(o.sbuf[:], o.sbuf[1:o.n])
+			copy(o.abuf[:], o.abuf[1:o.n])
 			copy(o.senders[:], o.senders[1:o.n])
 			o.n--
 		} else {
 			u := s.threads[c.S]
 			t.partner, u.partner = u, t
-			t.recvInt, t.recvStr = u.val, u.sval
+			t.recvInt, t.recvStr, t.recvAny = u.val, u.sval, u.aval
 			u.pending = OpStart // the sender's send has completed; it is simply runnable now
 			u.obj = nil
 			s.log(Event{Thread: u.id, Op: OpSend, Obj: o.id, Arg: u.val, Name: u.sval})
 		}
-		s.log(Event{Thread: t.id, Op: OpRecv, Obj: o.id, Arg: t.recvInt, Name: t.recvStr})
+		if t.partner != nil {
+			s.log(Event{Thread: t.id, Op: OpRecv, Obj: o.id, Arg: t.recvInt, Name: t.recvStr})
+		}
 	case OpLock:
 		t.obj.writer = t.id
 		t.held++
@@ -564,70 +585,47 @@ func Call(name string, write, begin bool) {
 
 // ---- channels
 
-type ChanInt struct {
-	real chan int
+// ChanInt / ChanString: the element types whose values the event log records (kept as names for the harnesses).
+type ChanInt = Chan[int]
+type ChanString = Chan[string]
+
+func MakeChanInt(n int) *ChanInt       { return MakeChan[int](n) }
+func MakeChanString(n int) *ChanString { return MakeChan[string](n) }
+
+// Chan is a channel of any element type (the rewriter maps every `chan T` to *Chan[T]); int and string values are
+// also recorded in the event log.
+type Chan[T any] struct {
+	real chan T
 	o    *object
 }
 
-func MakeChanInt(n int) *ChanInt {
+func MakeChan[T any](n int) *Chan[T] {
 	if s := active; s != nil {
 		o := s.newObject()
 		o.cap = n
-		return &ChanInt{o: o}
+		return &Chan[T]{o: o}
 	}
-	return &ChanInt{real: make(chan int, n)}
+	return &Chan[T]{real: make(chan T, n)}
 }
 
-func (c *ChanInt) Send(v int) {
+func (c *Chan[T]) Send(v T) {
 	if c.real != nil {
 		c.real <- v
 		return
 	}
 	s := active
 	me := s.current()
-	s.setVal(me, v, "")
-	raceRelease(unsafe.Pointer(&me.sendSync)) // the send happens-before the matching receive completes
-	unbuffered := s.chanCap(c.o) == 0
-	s.point(me, OpSend, c.o)
-	if unbuffered {
-		raceAcquire(unsafe.Pointer(&s.partnerOf(me).recvSync)) // the receive happens-before the send completes
+	switch x := any(v).(type) {
+	case int:
+		s.setAny(me, x, "", v)
+	case string:
+		s.setAny(me, 0, x, v)
+	default:
+		s.setAny(me, 0, "", v)
 	}
-}
-
-func (c *ChanInt) Recv() int {
-	if c.real != nil {
-		return <-c.real
+	if s.isClosed(c.o) {
+		panic("send on closed channel")
 	}
-	s := active
-	me := s.current()
-	raceRelease(unsafe.Pointer(&me.recvSync))
-	s.point(me, OpRecv, c.o)
-	raceAcquire(unsafe.Pointer(&s.partnerOf(me).sendSync))
-	return s.recvInt(me)
-}
-
-type ChanString struct {
-	real chan string
-	o    *object
-}
-
-func MakeChanString(n int) *ChanString {
-	if s := active; s != nil {
-		o := s.newObject()
-		o.cap = n
-		return &ChanString{o: o}
-	}
-	return &ChanString{real: make(chan string, n)}
-}
-
-func (c *ChanString) Send(v string) {
-	if c.real != nil {
-		c.real <- v
-		return
-	}
-	s := active
-	me := s.current()
-	s.setVal(me, 0, v)
 	raceRelease(unsafe.Pointer(&me.sendSync))
 	unbuffered := s.chanCap(c.o) == 0
 	s.point(me, OpSend, c.o)
@@ -636,7 +634,7 @@ func (c *ChanString) Send(v string) {
 	}
 }
 
-func (c *ChanString) Recv() string {
+func (c *Chan[T]) Recv() T {
 	if c.real != nil {
 		return <-c.real
 	}
@@ -644,12 +642,43 @@ func (c *ChanString) Recv() string {
 	me := s.current()
 	raceRelease(unsafe.Pointer(&me.recvSync))
 	s.point(me, OpRecv, c.o)
-	raceAcquire(unsafe.Pointer(&s.partnerOf(me).sendSync))
-	return s.recvStr(me)
+	if p := s.partnerOf(me); p != nil {
+		raceAcquire(unsafe.Pointer(&p.sendSync))
+	} else {
+		raceAcquire(unsafe.Pointer(&c.o.sync1)) // the channel was closed: the close happens-before this receive
+	}
+	v, _ := s.recvAnyOf(me).(T)
+	return v
+}
+
+// Close closes the channel: blocked and later receives complete with the zero value once it is drained.
+func (c *Chan[T]) Close() {
+	if c.real != nil {
+		close(c.real)
+		return
+	}
+	s := active
+	me := s.current()
+	if s.isClosed(c.o) {
+		panic("close of closed channel")
+	}
+	raceReleaseMerge(unsafe.Pointer(&c.o.sync1))
+	s.point(me, OpClose, c.o)
 }
 
 //go:norace
-func (s *sched) setVal(t *thread, v int, sv string) { t.val, t.sval = v, sv }
+func (s *sched) isClosed(o *object) bool { return o.closed }
+
+//go:norace
+func (s *sched) setAny(t *thread, v int, sv string, av interface{}) {
+	t.val, t.sval, t.aval = v, sv, av
+}
+
+//go:norace
+func (s *sched) recvAnyOf(t *thread) interface{} { return t.recvAny }
+
+//go:norace
+func (s *sched) setVal(t *thread, v int, sv string) { t.val, t.sval, t.aval = v, sv, nil }
 
 //go:norace
 func (s *sched) partnerOf(t *thread) *thread { return t.partner }
